@@ -40,6 +40,8 @@ pub struct Tc<'a> {
 	pub last_ops: Vec<RawRec>,
 	/// C10 PoisonModel, keyed by the lock id of a Poisonable leaf
 	pub pois: Option<PoisModel>,
+	/// other managed threads run concurrently (Baton mode)
+	pub concurrent: bool,
 }
 
 #[derive(Default, Clone, Debug)]
@@ -108,6 +110,7 @@ impl<'a> Tc<'a> {
 			outcomes: Vec::new(),
 			last_ops: Vec::new(),
 			pois: None,
+			concurrent: false,
 		}
 	}
 
@@ -117,6 +120,31 @@ impl<'a> Tc<'a> {
 
 	/// a non-acquiring API call with the C17 monitor around it
 	pub fn nonacq<T>(&mut self, label: &'static str, f: impl FnOnce() -> T) -> T {
+		if self.concurrent {
+			// other threads run during the call: only this thread's own holds can be compared
+			// (a release of somebody else's hold is caught by the release audit, C05)
+			let before = self.w.held(self.tid);
+			self.w.begin_call(self.tid, Class::NonAcq, label, false);
+			let r = f();
+			let ops = self.w.end_call(self.tid);
+			self.stats.nonacq_calls += 1;
+			if ops.iter().any(|o| o.op == Op::Lock) {
+				self.v(
+					"C17",
+					"blocking_op_in_nonacquiring_call",
+					format!("{label}: issued a blocking raw lock operation"),
+				);
+			}
+			let after = self.w.held(self.tid);
+			if before != after {
+				self.v(
+					"C17",
+					"hold_state_changed",
+					format!("{label}: the caller held {:?} before and {:?} after a non-acquiring call", before, after),
+				);
+			}
+			return r;
+		}
 		let before = self.w.snapshot();
 		self.w.begin_call(self.tid, Class::NonAcq, label, false);
 		let r = f();
@@ -597,6 +625,12 @@ impl<'a> Tc<'a> {
 			return;
 		};
 		self.stats.acquisitions += 1;
+		// now and then format the target while other threads may hold its locks (C17 under
+		// concurrency; a Debug impl that disturbs holds also surfaces as C05 / C02 here)
+		let fmt_now = (self.stats.acquisitions + self.tid as u64) % 5 == 0;
+		if fmt_now {
+			let _ = self.nonacq("debug(target) before acquiring", || lk.debug());
+		}
 		match acq.api {
 			Api::Guard | Api::GuardUnlock => {
 				w.begin_call(tid, Class::Acquire, label, lk.is_retry());
@@ -607,6 +641,10 @@ impl<'a> Tc<'a> {
 				self.check_holds_exactly(exp, acq.mode, &format!("after {}", desc()), "C04");
 				if lk.is_retry() {
 					self.check_retry_ops(&ops, label);
+				}
+				if fmt_now {
+					let _ = self.nonacq("debug(target) under own guard", || lk.debug());
+					let _ = self.nonacq("debug(guard)", || held.debug());
 				}
 				self.guard_section_and_release(&mut Some(held.as_mut()), acq, exp);
 				self.release(held, acq);
